@@ -265,6 +265,12 @@ func runCrashCase(c crCase, bin, tmp string) map[string]interface{} {
 		timed("dispense", func() error { _, e := cp.Dispense("v"); return e })
 	}
 	pid := p.Pid()
+	if crashed && pid != 0 {
+		// a process that has called exit may need a moment to be gone
+		for i := 0; i < 400 && !vp.PidGone(pid) && vp.PidState(pid) != "Z"; i++ {
+			time.Sleep(5 * time.Millisecond)
+		}
+	}
 	out["crashed"] = crashed && (pid == 0 || vp.PidGone(pid) || vp.PidState(pid) == "Z" || c.Point == "mid_line" || c.Point == "before_output")
 	// Exited() becomes true, the gRPC context is cancelled
 	if crashed {
